@@ -126,7 +126,9 @@ func runNilElements(a, b []int) (key, msg string) {
 		{"IsSubset", func() res { return res{b: fpgo.IsSubset(nilToP(a), nilToP(b))} },
 			func() res { return res{b: fpgo.IsSubsetForInterface(nilToI(a), nilToI(b))} },
 			nil, false, true, func() bool { return refSubset(a, b) }},
-		{"Stream.Minus", func() res { return res{seq: nilFromP(fpgo.StreamFromArray(nilToP(a)).Minus(fpgo.StreamFromArray(nilToP(b))).ToArray())} },
+		{"Stream.Minus", func() res {
+			return res{seq: nilFromP(fpgo.StreamFromArray(nilToP(a)).Minus(fpgo.StreamFromArray(nilToP(b))).ToArray())}
+		},
 			func() res {
 				return res{seq: nilFromI(fpgo.StreamForInterface.FromArray(nilToI(a)).Minus(fpgo.StreamForInterface.FromArray(nilToI(b))).ToArray())}
 			},
